@@ -67,6 +67,7 @@ public:
    void SetColumnIndent(size_t col);
    bool IsParenOpen() const;
    bool IsParenClose() const;
+   bool IsBraceClose() const;
    bool TestFlags(unsigned long flags) const;
    void SetFlags(unsigned long flags);
    size_t GetLevel() const;
